@@ -220,9 +220,24 @@ def case_reducer(c):
     for fn in guppi.list_files(stem):
         os.remove(fn)
     try:
-        be.record(output_file_stem=stem, num_blocks=2, length_mode='num_blocks', header_dict={'DIRECTIO': c['directio']},
+        hd = {'DIRECTIO': c['directio']}
+        be.record(output_file_stem=stem, num_blocks=2, length_mode='num_blocks', header_dict=dict(hd),
                   load_template=False, verbose=False)
         blk = guppi.parse_file(stem + '.0000.raw')[0]
+        if c.get('aligned'):
+            # the same recording with as many extra cards as make the header an exact multiple of 512 bytes
+            for k in range((-blk['n_cards']) % 32):
+                hd['FILL%03d' % k] = k
+            for fn in guppi.list_files(stem):
+                os.remove(fn)
+            be = sv.RawVoltageBackend(ant, digitizer=sv.RealQuantizer(), filterbank=sv.PolyphaseFilterbank(num_taps=2, num_branches=8),
+                                      requantizer=sv.ComplexQuantizer(), start_chan=0, num_chans=nc, block_size=T * nc * 4,
+                                      blocks_per_file=2, num_subblocks=1)
+            be.record(output_file_stem=stem, num_blocks=2, length_mode='num_blocks', header_dict=dict(hd),
+                      load_template=False, verbose=False)
+            blk = guppi.parse_file(stem + '.0000.raw')[0]
+            if (blk['n_cards'] * 80) % 512:
+                raise engine.HarnessError('aligned-header case is not aligned: %d cards' % blk['n_cards'])
         dec = guppi.decode_payload(blk['payload'], 1, nc, 2, 8)[0]           # (nc, T, 2)
         want = ref_reduce([dec[:, :, 0].T, dec[:, :, 1].T], N, I)
         got = svw.get_waterfall_from_raw(stem + '.0000.raw', T * nc * 4, nc, int_factor=I, fftlength=N)
@@ -249,7 +264,7 @@ def case_reducer(c):
 def run(ctx):
     Tt = ctx.tier == 'thorough'
     cases = []
-    for rate, P in ((1024.0, 16), (3e9, 16), (48e3, 8), (1e6, 32)):
+    for rate, P in ((1024.0, 16), (3e9, 16), (48e3, 8), (1e6, 32), (1024.0, 14)):    # 14 = 2 x 7: a transform length that is not 5-smooth
         half = P // 2
         wins = sorted(set([(0, 1), (0, 3), (1, 1), (1, 2), (half - 3, 3), (half - 1, 1)] +
                           ([(s, n) for s in range(half) for n in (1, 2, 3) if s + n <= half] if Tt else [])))
@@ -288,6 +303,8 @@ def run(ctx):
             for nc in (1, 3):
                 for directio in (0, 1):
                     red.append(dict(N=N, I=I, nc=nc, T=64, directio=directio, seed=ctx.seed))
+                    if directio and N == 4:
+                        red.append(dict(N=N, I=I, nc=nc, T=64, directio=directio, seed=ctx.seed, aligned=True))
     ctx.pmap(case_reducer, red)
     # reading the parameters back from a stem that was recorded before with ANOTHER orientation / fch1 / first channel
     from mc.checks import c04
